@@ -220,6 +220,10 @@ def load_dis27():
     g["ord"] = _ord
     for name in ("findlabels", "findlinestarts"):
         m = re.search(r"^def %s\(.*?(?=^def |\Z)" % name, src, re.S | re.M)
-        exec(compile(m.group(0), path, "exec"), g)
+        chunk = m.group(0)
+        fname = "<cpython2.7-dis:%s>" % name
+        import linecache
+        linecache.cache[fname] = (len(chunk), None, chunk.splitlines(True), fname)
+        exec(compile(chunk, fname, "exec"), g)
         _PY27_FUNCS[name] = g[name]
     return _PY27_FUNCS
